@@ -50,6 +50,7 @@ class Template:
         self.tool = seed.tool
         self.doc = json.loads(seeds.results_for_cli(seed.tool, seed.results))
         self.site_line = site_line
+        self.as_hotspots = False   # Sonar: deliver the findings as hotspots of a combined export (issues of another rule next to them)
         self.entries = []  # (container_key, entry)
         if self.tool == "sonar":
             for key in ("issues", "hotspots"):
@@ -112,13 +113,25 @@ class Template:
                 if sp["kind"] == "status" and self.tool == "sonar":
                     n["status"] = ("RESOLVED", "CLOSED", "REVIEWED")[u % 3]
                 if self.tool == "sonar":
-                    doc[key].append(n)
+                    if self.as_hotspots and sp["kind"] != "rule":
+                        if n.get("status") == "OPEN":
+                            n["status"] = "TO_REVIEW"
+                        doc.setdefault("hotspots", []).append(n)
+                    else:
+                        doc[key].append(n)
                 elif self.tool == "semgrep":
                     doc["runs"][key]["results"].append(n)
                 else:
                     doc["results"].append(n)
                 if sp["kind"] == "real":
                     expected.setdefault(sp["file"], {}).setdefault(str(sp.get("site", self.site_line + sp["delta"])), []).append(self.identity(n, u))
+        if self.tool == "sonar" and specs and self.as_hotspots:
+            # a combined export: hotspots next to an issue of some other rule (at the place of the first hotspot)
+            key, e = self.entries[0]
+            decoy = _shift(e, specs[0]["delta"], "code.py", specs[0]["file"], specs[0].get("dcol", 0))
+            decoy["key"] = "kdecoy"
+            decoy["rule" if "rule" in decoy else "ruleKey"] = FOREIGN_RULE["sonar"]
+            doc.setdefault("issues", []).append(decoy)
         return doc, expected
 
 
@@ -226,11 +239,21 @@ def run(chk: Check) -> None:
                 kind = "real" if sc["kind"] == "subset" else sc["kind"]
                 target = "ghost/nowhere.py" if kind == "ghost" else rel
                 specs.append({"file": target, "delta": lines[i - 1] - first, "kind": kind, "dcol": dcol})
+        tpl.as_hotspots = tpl.tool == "sonar" and sorted(best).index(cid) % 3 == 0
         doc, findings = tpl.make(specs)
         opt = option_for(tpl.tool, doc)
+        resfiles, resarg = {"results.json": doc}, "{res}/results.json"
+        if (sorted(best).index(cid) + si) % 2 == 1 and tpl.tool in ("sonar", "defectdojo"):
+            # the same findings delivered as two pages (two result files of one tool): entries dealt out alternately
+            pages = [copy.deepcopy(doc), copy.deepcopy(doc)]
+            for key in ("issues", "hotspots", "results"):
+                if isinstance(doc.get(key), list):
+                    for pi in (0, 1):
+                        pages[pi][key] = [e for ei, e in enumerate(doc[key]) if ei % 2 == pi]
+            resfiles, resarg = {"results.json": pages[0], "results2.json": pages[1]}, "{res}/results.json,{res}/results2.json"
         scenarios.append({
-            "id": f"C06-{cid}-{si}", "files": files, "resfiles": {"results.json": doc},
-            "steps": [{"argv": ["{dir}", "--output", "{out}", "--codemod-include", cid, opt, "{res}/results.json"],
+            "id": f"C06-{cid}-{si}", "files": files, "resfiles": resfiles,
+            "steps": [{"argv": ["{dir}", "--output", "{out}", "--codemod-include", cid, opt, resarg],
                        "site_lines": site_lines, "site_spans": site_spans, "site_findings": findings, "expect": {"siteMay": exp_sites, "siteMust": exp_sites}}],
             "_meta": {"codemod": cid, "si": si, "tool": tpl.tool, "exp": exp_sites, "site_lines": site_lines},
         })
